@@ -294,11 +294,50 @@ let config_model arg =
   Printf.printf "sets=%s capacity=%d\n" (String.concat "," (List.map (fun b -> if b then "ok" else "err") rs))
     (int_of_nat (default_cap c))
 
+(* ---- the mailbox at permit granularity (Model/Chan.v) run on label scripts; one result line per
+   script, the same text harness/src/bin/chan_probe.rs prints for the real tokio channel *)
+let chan_run file =
+  let ic = open_in file in
+  (try
+    while true do
+      let line = input_line ic in
+      match String.split_on_char ':' line with
+      | [hd; body] ->
+          let h = List.filter (fun x -> x <> "") (String.split_on_char ' ' hd) in
+          let waits, cap, n = (match h with [w; c; n] -> (w = "1", int_of_string c, int_of_string n) | _ -> failwith "chan header") in
+          let toks = List.filter (fun x -> x <> "") (String.split_on_char ' ' body) in
+          let lab t =
+            let arg () = nat_of_int (int_of_string (String.sub t 1 (String.length t - 1))) in
+            match t.[0] with
+            | 'a' -> KAcquire (arg ()) | 'f' -> KFail (arg ()) | 'p' -> KPush (arg ()) | 'g' -> KGiveBack (arg ())
+            | 'r' -> KRecv | 'c' -> KClose | 'd' -> KDrain | 'x' -> KExit
+            | _ -> failwith ("chan label " ^ t) in
+          let buf = Buffer.create 256 in
+          let c = ref (init_chan (nat_of_int cap) (nat_of_int n)) in
+          List.iter (fun t ->
+              c := cstep waits !c (lab t);
+              let ql = List.length !c.c_queue in
+              let live = ql + List.length !c.c_stranded in
+              Buffer.add_string buf
+                (Printf.sprintf "%d/%s/%d/%d " (int_of_nat !c.c_free)
+                   (match !c.c_phase with RExited -> "-" | _ -> string_of_int ql)
+                   (if !c.c_closed then 1 else 0) live)) toks;
+          let ms l = String.concat "," (List.map (fun (i, k) -> Printf.sprintf "%d.%d" (int_of_nat i) (int_of_nat k)) l) in
+          let ns l = String.concat "," (List.map (fun k -> string_of_int (int_of_nat k)) (List.rev l)) in
+          Buffer.add_string buf (Printf.sprintf "H=[%s] D=[%s]" (ms !c.c_handled) (ms !c.c_dropped));
+          List.iteri (fun i s -> Buffer.add_string buf (Printf.sprintf " s%d:ok=[%s],err=[%s]" i (ns s.sn_ok) (ns s.sn_err))) !c.c_senders;
+          print_endline (Buffer.contents buf)
+      | _ -> ()
+    done
+  with End_of_file -> close_in ic)
+
+
 let () =
   if Array.length Sys.argv > 1 && Sys.argv.(1) = "--result-table" then (result_table (); exit 0);
   if Array.length Sys.argv > 1 && Sys.argv.(1) = "--join-table" then (join_table (); exit 0);
   if Array.length Sys.argv > 2 && Sys.argv.(1) = "--config" then (config_model Sys.argv.(2); exit 0);
   if Array.length Sys.argv > 2 && Sys.argv.(1) = "--macro" then (macro_decide Sys.argv.(2); exit 0);
+  if Array.length Sys.argv > 2 && Sys.argv.(1) = "--chan" then (chan_run Sys.argv.(2); exit 0);
   let script = ref "" and observed = ref "" and proj = ref "full" and dump = ref false in
   Arg.parse [ "--script", Arg.Set_string script, "script file";
               "--observed", Arg.Set_string observed, "observed views";
